@@ -26,9 +26,19 @@ func writeSchema(path string) {
 	s := te.NewSchema()
 	root := s.TypeOf(reflect.TypeOf(ngapType.NGAPPDU{}), te.Parse(pduTag))
 	tr := map[string]interface{}{}
-	for _, t := range []interface{}{ngapType.PDUSessionResourceSetupRequestTransfer{}, ngapType.PDUSessionResourceSetupResponseTransfer{},
-		ngapType.PDUSessionResourceReleaseResponseTransfer{}, ngapType.PDUSessionResourceReleaseCommandTransfer{},
-		ngapType.PDUSessionResourceSetupUnsuccessfulTransfer{}} {
+	for _, t := range []interface{}{
+		ngapType.HandoverCommandTransfer{}, ngapType.HandoverPreparationUnsuccessfulTransfer{},
+		ngapType.HandoverRequestAcknowledgeTransfer{}, ngapType.HandoverRequiredTransfer{},
+		ngapType.HandoverResourceAllocationUnsuccessfulTransfer{}, ngapType.PDUSessionResourceModifyConfirmTransfer{},
+		ngapType.PDUSessionResourceModifyIndicationTransfer{}, ngapType.PDUSessionResourceModifyIndicationUnsuccessfulTransfer{},
+		ngapType.PDUSessionResourceModifyRequestTransfer{}, ngapType.PDUSessionResourceModifyResponseTransfer{},
+		ngapType.PDUSessionResourceModifyUnsuccessfulTransfer{}, ngapType.PDUSessionResourceNotifyReleasedTransfer{},
+		ngapType.PDUSessionResourceNotifyTransfer{}, ngapType.PDUSessionResourceReleaseCommandTransfer{},
+		ngapType.PDUSessionResourceReleaseResponseTransfer{}, ngapType.PDUSessionResourceSetupRequestTransfer{},
+		ngapType.PDUSessionResourceSetupResponseTransfer{}, ngapType.PDUSessionResourceSetupUnsuccessfulTransfer{},
+		ngapType.PathSwitchRequestAcknowledgeTransfer{}, ngapType.PathSwitchRequestSetupFailedTransfer{},
+		ngapType.PathSwitchRequestTransfer{}, ngapType.PathSwitchRequestUnsuccessfulTransfer{},
+		ngapType.SourceNGRANNodeToTargetNGRANNodeTransparentContainer{}, ngapType.TargetNGRANNodeToSourceNGRANNodeTransparentContainer{}} {
 		tr[reflect.TypeOf(t).Name()] = s.TypeOf(reflect.TypeOf(t), te.Parse("valueExt"))
 	}
 	b, _ := json.Marshal(map[string]interface{}{"root": root, "transfers": tr, "types": s.Types})
